@@ -12,15 +12,10 @@ Proof. exact op_exit_enter. Qed.
 Theorem opcode_exit_underflow : forall d : N, op_exit d = None <-> d = 0%N.
 Proof. exact op_exit_none. Qed.
 
-(* the host API pair is an inverse pair strictly below the saturation bound ... *)
-Theorem api_enter_exit_guarded : forall d : N, (d < MAX_NO_GC_DEPTH)%N -> api_exit (api_enter d) = d.
-Proof. exact api_enter_exit_below. Qed.
-
-(* ... but enter saturates and exit does not: 65 nested enters followed by 64 exits leave depth 0
-   although one region is still open *)
-Theorem api_nesting_balanced_refuted :
-  Nat.iter 65 api_enter 0%N = 64%N /\ Nat.iter 64 api_exit (Nat.iter 65 api_enter 0%N) = 0%N.
-Proof. exact api_saturation_witness. Qed.
+(* the host API pair VM::enter_no_gc / exit_no_gc is an inverse pair at every depth (KF: enter used to
+   stop counting at MAX_NO_GC_DEPTH; repaired, see Proofs.old_api_saturation_witness for the old definition) *)
+Theorem api_enter_exit_inverse : forall d : N, api_exit (api_enter d) = d.
+Proof. exact NoGcProofs.api_enter_exit_inverse. Qed.
 
 (* ---- collection is suspended while the depth is positive *)
 Theorem no_collect_when_positive :
@@ -54,80 +49,64 @@ Theorem nested_calls_restore :
   fst r <> OUnder /\ fst r <> ORet /\ fst r <> OBrk /\ fst r <> OCont.
 Proof. exact (fun inl P => call_restores return_exit_order inl P order_ok). Qed.
 
-(* a top-level run / REPL input that ends Ok leaves no_gc_depth as it found it *)
-Theorem ok_run_restores_depth :
+(* a top-level run / REPL input leaves no_gc_depth as it found it -- whether it ends Ok or with a runtime
+   error (run_fast restores the depth of entry when the run fails); OFuel is the model's own fuel, not an
+   outcome of the VM *)
+Theorem run_restores_depth :
   forall (inl : bool) (P : prog) (n0 : Z) (d0 : N),
   let r := run_vm return_exit_order inl P n0 d0 in
-  (fst r = ONormal -> v_depth (snd r) = d0) /\ (fst r = OErr -> (d0 <= v_depth (snd r))%N) /\ fst r <> OUnder.
-Proof. exact (fun inl P n0 d0 => run_vm_restores return_exit_order inl P n0 d0 order_ok). Qed.
+  (fst r <> OFuel -> v_depth (snd r) = d0) /\ fst r <> OUnder.
+Proof. exact (fun inl P n0 d0 => run_vm_restores return_exit_order inl P n0 d0 order_ok restores_flag). Qed.
 
-Theorem session_of_ok_inputs_restores :
+(* REPL sessions with failing inputs: the depth after every input is the depth before the first *)
+Theorem session_restores_depth :
   forall (inl : bool) (inputs : list (prog * Z)) (d : N),
-  Forall (fun r => fst r = ONormal) (session return_exit_order inl inputs d) ->
+  Forall (fun r => fst r <> OFuel) (session return_exit_order inl inputs d) ->
   Forall (fun r => snd r = d) (session return_exit_order inl inputs d).
-Proof. exact (fun inl => session_ok_restores return_exit_order inl order_ok). Qed.
+Proof. exact (fun inl => session_restores return_exit_order inl order_ok restores_flag). Qed.
 
-(* ---- the two facts that are FALSE of the faithful model, and the strongest true statements *)
+(* ---- inside a region (all three were refuted before the repairs of KF-C13-1/2/3; the witnesses about the
+   old definitions are Proofs.old_return_expr_path_witness, old_error_leak_witness, old_inliner_witness) *)
 
-(* (1) allocation points inside a region.  Refuted: `@no_gc fn f(a, b) { return a + b }` -- the
-   concatenation is evaluated after ExitNoGc, at the caller's depth. *)
-Theorem safepoint_in_return_expr_at_depth0_refuted :
-  exists (f : fn) (t : list ev),
-    f_nogc f = true /\ path (emit_fn return_exit_order false [] f) t CReturned /\ ~ alloc_pos 0 t.
-Proof.
-  exists w_leaf_ret, [VEnter; VExit; VSafe].
-  exact (conj eq_refl (return_expr_path_witness eq_refl)).
-Qed.
-
-Theorem safepoint_in_return_expr_run_refuted :
-  exists (P : prog) (n0 : Z),
-    let '(o, st) := run_vm return_exit_order false P n0 0 in
-    let '(_, ss) := run_src P n0 in
-    o = ONormal /\ s_flag ss = 1%N /\ v_pos st = 0%N /\ v_depth st = 0%N.
-Proof. exists (prog_call w_leaf_ret), 1%Z. exact return_expr_exec_witness. Qed.
-
-(* guarded: when no `return e` of the @no_gc body has an allocation point or a call in e, every
-   allocation point and every call of the body happens at depth > 0, on every path, also the ones
-   that end with an error *)
-Theorem region_safepoints_positive_guarded :
-  forall (inl : bool) (P : list fn) (f : fn),
-  f_nogc f = true -> ret_quiet (f_body f) = true ->
+(* every allocation point and every call of a @no_gc body -- including the ones inside `return e` -- happens
+   at depth > 0, on every path, also the ones that end with an error; no guard on the body *)
+Theorem region_safepoints_positive :
+  forall (inl : bool) (P : list fn) (f : fn), f_nogc f = true ->
   forall (t : list ev) (m : cmp), path (emit_fn return_exit_order inl P f) t m -> alloc_pos 0 t.
-Proof. exact (fun inl P f => region_alloc_pos_lemma return_exit_order inl P f order_ok). Qed.
+Proof. exact region_alloc_pos_lemma. Qed.
 
-(* (2) restore after an error.  Refuted: a division by zero inside a @no_gc function (REPL input 1)
-   leaves no_gc_depth = 1 for all later inputs; their safepoints are all reached at depth > 0, i.e.
-   the collector stays disabled. *)
-Theorem error_restores_depth_refuted :
-  exists (inputs : list (prog * Z)),
-    session return_exit_order false inputs 0 = [(OErr, 1%N); (ONormal, 1%N); (ONormal, 1%N)].
-Proof.
-  exists [(prog_call w_fail_in_region, 1%Z); (prog_safe, 1%Z); (prog_safe, 1%Z)].
-  exact (proj1 error_leak_witness).
-Qed.
+(* lifted through calls (executable semantics, any fuel, any call graph, inlining on or off): from the
+   call of a @no_gc function until it returns or fails, EVERY safepoint -- its own and those of everything
+   it calls -- is reached with no_gc_depth > 0, whatever the depth at the call *)
+Theorem no_gc_call_never_reaches_safepoint_at_depth0 :
+  forall (inl : bool) (P : list fn) (fuel g : nat) (fd : fn) (n i : Z) (st : vst),
+  nth_error P g = Some fd -> f_nogc fd = true ->
+  let r := vm_exec fuel (emit_tbl return_exit_order inl P) (KCall g) n i st in
+  (v_safes (snd r) + v_pos st = v_pos (snd r) + v_safes st)%N.
+Proof. exact nogc_call_never_at_depth0. Qed.
 
-(* the two defects mask each other when the failing operation is inside the return expression *)
-Theorem error_in_return_expr_is_masked :
-  session return_exit_order false [(prog_call w_fail_in_return, 1%Z); (prog_safe, 1%Z)] 0
-  = [(OErr, 0%N); (ONormal, 0%N)].
-Proof. exact error_in_return_expr_masked. Qed.
+(* the inliner: a call of a @no_gc function is never replaced by its body *)
+Theorem inline_preserves_region :
+  forall (inl : bool) (P : list fn) (f : nat) (fd : fn),
+  nth_error P f = Some fd -> f_nogc fd = true -> emit_expr inl P (ECall f) = KCall f.
+Proof. exact nogc_never_inlined. Qed.
 
-(* guarded: without @no_gc functions nothing changes the depth, whatever the outcome *)
-Theorem error_restores_depth_guarded :
+(* without @no_gc functions nothing changes the depth, whatever the outcome *)
+Theorem depth_constant_without_no_gc :
   forall (inl : bool) (P : prog) (n0 : Z) (d0 : N),
   Forall (fun f => f_nogc f = false) (p_fns P) ->
   v_depth (snd (run_vm return_exit_order inl P n0 d0)) = d0.
 Proof. exact (no_nogc_depth_constant return_exit_order). Qed.
 
-(* (3) inlining: `@no_gc fn g(a, b) { a + b }` called once -- not inlined the concatenation is reached
-   at depth 1, inlined (what -O1..-O3 do) at depth 0 *)
-Theorem inline_preserves_region_refuted :
-  exists (P : prog) (n0 : Z),
-    let '(_, a) := run_vm return_exit_order false P n0 0 in
-    let '(_, b) := run_vm return_exit_order true P n0 0 in
-    let '(_, ss) := run_src P n0 in
-    s_flag ss = 1%N /\ v_pos a = 1%N /\ v_pos b = 0%N /\ v_safes a = v_safes b.
-Proof. exists (prog_call w_leaf_imp), 1%Z. exact inline_witness. Qed.
+(* the former witnesses on the repaired definitions: the failing @no_gc function (failure in the body and
+   inside the return expression) restores the depth; `return a + b` and the trailing `a + b` of a @no_gc leaf
+   are reached at depth 1 also with the inliner on *)
+Example former_counterexamples_now_hold :
+  session return_exit_order false [(prog_call w_fail_in_region, 1%Z); (prog_safe, 1%Z); (prog_call w_fail_in_return, 1%Z); (prog_safe, 1%Z)] 0
+  = [(OErr, 0%N); (ONormal, 0%N); (OErr, 0%N); (ONormal, 0%N)] /\
+  (let '(_, st) := run_vm return_exit_order true (prog_call w_leaf_ret) 1%Z 0 in v_pos st = 1%N /\ v_safes st = 2%N) /\
+  (let '(_, st) := run_vm return_exit_order true (prog_call w_leaf_imp) 1%Z 0 in v_pos st = 1%N /\ v_safes st = 2%N).
+Proof. exact repaired_witnesses. Qed.
 
 (* non-vacuity: a program with recursion, loops with break / continue and an early return inside a
    @no_gc function runs to completion in the model with safepoints on both sides of the region *)
